@@ -187,6 +187,11 @@ def check(ctx):
     ctx.need("F0", "F1")
     n_list = n_rep = 0
     for cfg, alloc in (("F0", False), ("F1", True)):
+        if alloc:
+            # the hidden helper the boxed list form hands its Vec to: adopting it as the box must not depend on anything but len == N
+            # (the rule is C15.D's; it is run here as well because `box_arr!` builds the array its syntax denotes only if the helper does)
+            from . import c15
+            c15.check_vec_helpers(ctx, cfg, rule="C20.H")
         b = ctx.builds[cfg]
         src, ks = witness_source(ctx.tier, alloc)
         d = tempfile.mkdtemp(prefix="c20-", dir=b.dir)
